@@ -205,7 +205,10 @@ func GenCmdCase(r *Rand, doc *GDoc, kinds []string) CmdCase {
 			cmd.Should, cmd.ShouldMins = "8h", 480
 			if r.P(1, 3) {
 				cmd.Should, cmd.ShouldMins = "-1h30m", -90
+			} else if r.P(1, 3) { // an explicit zero is a value too: it overrides a configured default
+				cmd.Should, cmd.ShouldMins = Pick(r, []string{"0m", "0h", "-0m"}), 0
 			}
+			cmd.ShouldAlias = r.P(1, 3)
 		}
 		if r.P(1, 3) {
 			cmd.HasSummary = true
